@@ -639,6 +639,13 @@ func init() {
 				{[]string{"1 + 1", "const c = 5"}, []string{"c"}, nil},
 				{[]string{"global g", "param (a, b)", "a"}, []string{"a", "b"}, []ugo.Object{ugo.Int(1), ugo.Int(2)}},
 				{[]string{"x := 1", "f := func() { x++; return x }", "x = 10", "f()"}, []string{"x", "f()"}, nil},
+				// a module is initialised once per session: importing it again in a later fragment gives the
+				// instance (and the state) the earlier fragments hold
+				{[]string{"m1 := import(\"src1\")", "m1.inc()", "m2 := import(\"src1\")", "m2.inc()", "m1.get()"}, []string{"m1.get()", "m2.get()", "m1 == m2"}, nil},
+				{[]string{"a := import(\"src2\")", "a.bump()", "b := import(\"src1\")", "b.get()", "n := import(\"src2\").add(9)", "a.base"}, []string{"a.base", "b.get()", "n"}, nil},
+				{[]string{"f := func() { return import(\"src1\").inc() }", "f()", "f()", "import(\"src1\").get()"}, []string{"f()"}, nil},
+				{[]string{"b1 := import(\"bm\")", "b1.n", "b2 := import(\"bm\")", "b2.twice(4)"}, []string{"b1.n", "b2.n"}, nil},
+				{[]string{"c := import(\"src1\")", "c.k = 5", "import(\"src1\").k"}, []string{"c.k", "import(\"src1\").k"}, nil},
 			} {
 				es := &gen.EvalScript{Stmts: w.stmts, FailAt: -1, Probes: make([][]string, len(w.stmts))}
 				es.Probes[len(w.stmts)-1] = w.probes
